@@ -179,18 +179,63 @@ if ok:
     result["stars"] = stars
     if args.get("smoke"):
         result["smoke"] = smoke(args["pkg"], args["smoke"], args["scratch"])
+    if args.get("lookups"):
+        # names looked up by computed strings, the way the code under test does it (ReflectiveResolve)
+        try:
+            for st in args.get("pre", []):
+                exec(st, {})
+            pre_ok = True
+        except BaseException as exc:
+            pre_ok = False
+            result["pre_error"] = describe_exc(exc)
+        res = []
+        for lk in (args["lookups"] if pre_ok else []):
+            out = {"on": lk["on"], "how": lk["how"], "name": lk["name"]}
+            try:
+                mod = sys.modules[lk["on"]]
+                if lk["how"] == "getattr":
+                    getattr(mod, lk["name"])
+                else:
+                    vars(mod)[lk["name"]]
+                out["out"] = "ok"
+            except BaseException as exc:
+                d = describe_exc(exc)
+                out.update({"out": "exc", "cls": d["cls"], "msg": d["msg"], "exc_on": d["on"]})
+            res.append(out)
+        result["lookups"] = res
+    if args.get("drive"):
+        # every function of the list called with every value (self-test tree of ReflectiveResolve)
+        dr = args["drive"]
+        mod = sys.modules[dr["module"]]
+        res = []
+        for fn in dr["funcs"]:
+            for v in dr["values"]:
+                try:
+                    getattr(mod, fn)(v)
+                    out = {"out": "ok"}
+                except BaseException as exc:
+                    out = describe_exc(exc)
+                out["f"] = fn
+                out["arg"] = v
+                res.append(out)
+        result["drive"] = res
 sys.stdout.write("\n@@RESULT@@" + json.dumps(result))
 '''
 
 
-def run_probe(ctx, entries, scratch, stars=(), pkg=None, smoke=None, timeout=120):
+def run_probe(ctx, entries, scratch, stars=(), pkg=None, smoke=None, timeout=120, repo=None, pre=(), lookups=None,
+              drive=None):
     """Fresh interpreter: import *entries* in order (recording import events), star-import *stars*,
-    run the smoke items.  Returns the decoded result."""
+    run the smoke items; execute the import statements *pre* and look the names of *lookups* up
+    ([{on, how, name}]); call the functions of *drive*.  *repo*: another tree than the one under test (the
+    self-test tree).  Returns the decoded result."""
     os.makedirs(scratch, exist_ok=True)
-    args = {"repo": os.path.abspath(ctx.repo), "entries": list(entries), "stars": list(stars), "pkg": pkg,
-            "smoke": smoke or [], "scratch": os.path.abspath(scratch)}
+    repo = os.path.abspath(repo or ctx.repo)
+    args = {"repo": repo, "entries": list(entries), "stars": list(stars), "pkg": pkg,
+            "smoke": smoke or [], "scratch": os.path.abspath(scratch), "pre": list(pre), "lookups": lookups or [],
+            "drive": drive}
     env = dict(os.environ)
-    env["PYTHONPATH"] = os.path.abspath(ctx.repo)
+    env["PYTHONPATH"] = repo
     env["PYTHONHASHSEED"] = "0"
     env["PYTHONDONTWRITEBYTECODE"] = "1"
     env["PYTHONWARNINGS"] = "ignore"
@@ -202,8 +247,8 @@ def run_probe(ctx, entries, scratch, stars=(), pkg=None, smoke=None, timeout=120
         raise core.MachineryError("probe for %s produced no result (exit %s):\n%s" % (
             entries, p.returncode, p.stderr.decode("utf-8", "replace")[-2000:]))
     res = json.loads(out[k + len("@@RESULT@@"):])
-    if "file" in res and os.path.realpath(res["file"]) != os.path.realpath(ctx.repo):
-        raise core.MachineryError("fresh interpreter imported lena from %s, not from %s" % (res["file"], ctx.repo))
+    if "file" in res and os.path.realpath(res["file"]) != os.path.realpath(repo):
+        raise core.MachineryError("fresh interpreter imported lena from %s, not from %s" % (res["file"], repo))
     return res
 
 
@@ -740,6 +785,34 @@ SMOKE_AUDIT = {
 }
 
 
+# value kinds: elements that take histograms are run with 1-, 2- and 3-dimensional ones (code that chooses what
+# to call by the dimension of the data - also by a computed name - is reached for every kind)
+_ST = "M('lena.structures')"
+_HD = {1: _ST + ".histogram([0, 1, 2], [3, 4])",
+       2: _ST + ".histogram([[0, 1, 2], [0, 1]], [[1], [2]])",
+       3: _ST + ".histogram([[0, 1], [0, 1], [0, 1]], [[[5]]])"}
+SMOKE_DIMS = {
+    "lena.output": {
+        "ToCSV": ["run(P.ToCSV(), [(%s, {'name': 'h'})])" % _HD[d] for d in (2, 3)]
+                 + ["run(P.ToCSV(), [(%s, {'output': {'duplicate_last_bin': False}})])" % _HD[d] for d in (2, 3)],
+        "hist1d_to_csv": ["list(P.hist1d_to_csv(%s))" % _HD[d] for d in (2, 3)],
+        "hist2d_to_csv": ["list(P.hist2d_to_csv(%s))" % _HD[d] for d in (2, 3)],
+    },
+    "lena.structures": {
+        "HistToGraph": ["run(P.HistToGraph(), [%s])" % _HD[d].replace(_ST, "P") for d in (2, 3)],
+        "IterateBins": ["run(P.IterateBins(), [%s])" % _HD[d].replace(_ST, "P") for d in (2, 3)],
+        "MapBins": ["run(P.MapBins(lambda x: x + 1, select_bins=int), [%s])" % _HD[d].replace(_ST, "P") for d in (2, 3)],
+        "hist_to_graph": ["P.hist_to_graph(%s)" % _HD[d].replace(_ST, "P") for d in (2, 3)],
+        "iter_cells": ["list(P.iter_cells(%s))" % _HD[d].replace(_ST, "P") for d in (2, 3)],
+        "make_hist_context": ["P.make_hist_context(%s, {})" % _HD[d].replace(_ST, "P") for d in (2, 3)],
+        "histogram": ["(lambda h: (h.fill((0.5, 0.5, 0.5)), h.scale(), h.dim))(%s)" % _HD[3].replace(_ST, "P"),
+                      "%s == %s" % (_HD[3].replace(_ST, "P"), _HD[2].replace(_ST, "P"))]
+                     + ["M('lena.flow').scale_to(1, [%s])" % _HD[d].replace(_ST, "P") for d in (2, 3)]
+                     + ["M('lena.flow').GroupScale(1)([%s, %s])" % (_HD[1].replace(_ST, "P"), _HD[3].replace(_ST, "P"))],
+    },
+}
+
+
 def smoke_items(pkg, names):
     """[(key, code)] for the public names of a subpackage; names without an entry get the generic
     smoke: the attribute itself, and a call without arguments if it is callable."""
@@ -754,6 +827,7 @@ def smoke_items(pkg, names):
             lst.extend(("%s#%d" % (n, k), c) for k, c in enumerate(codes))
         lst.extend(("%s#e%d" % (n, k), c) for k, c in enumerate(SMOKE_ERRORS.get(pkg, {}).get(n, [])))
         lst.extend(("%s#a%d" % (n, k), c) for k, c in enumerate(SMOKE_AUDIT.get(pkg, {}).get(n, [])))
+        lst.extend(("%s#d%d" % (n, k), c) for k, c in enumerate(SMOKE_DIMS.get(pkg, {}).get(n, [])))
         items[n] = lst
     return items
 
@@ -773,6 +847,17 @@ def public_names(data, pkg):
                 and st["bind"] not in out and st["bind"] != "lena":
             out.append(st["bind"])
     return out
+
+
+def import_text(st):
+    """Source text of an import statement record of the extractor (a function's own imports)."""
+    if st["op"] == "import":
+        return "import %s" % st["mod"]
+    if st["op"] == "from":
+        return "from %s import %s" % (st["mod"], st["name"])
+    if st["op"] == "star":
+        return "from %s import *" % st["mod"]
+    return "pass"
 
 
 def func_at(data, relpath, line):
